@@ -27,7 +27,7 @@ def demo_cmd(seed, tree, out):
         m = re.search(r'(g\+\+|clang\+\+-14|clang\+\+)', l); cxx = m.group(1)
         if cxx == 'clang++': cxx = 'clang++-14'
         for tok in l[m.end():].split():
-            if re.fullmatch(r'-(D\w+(=[\w.]+)?|m[a-z0-9][\w.=-]*|f[a-z][\w-]*[a-z0-9]|std=[\w+]+|O[0-3s]|pthread)', tok): flags.append(tok)
+            if re.fullmatch(r'-(D\w+(=[\w.]+)?|m[a-z0-9][\w.=-]*|f[a-z][\w=,-]*[a-z0-9]|std=[\w+]+|O[0-3s]|pthread)', tok): flags.append(tok)
     if not any(f.startswith('-std=') for f in flags): flags.append('-std=c++17')
     return [cxx] + flags + ['-I', tree, os.path.join(seed, 'demo.cpp'), '-o', out]
 
